@@ -43,6 +43,21 @@ def storedExactly (cls method : String) (want : List (String × String)) : Bool 
 def rets (cls method callee : String) (idx : Nat := 0) : Option (List String) :=
   (site cls method callee idx).map (·.ret)
 
+def sameSet (a b : List String) : Bool := a.length == b.length && a.all (b.contains ·) && b.all (a.contains ·)
+
+/-- the library calls (and the `return ResultCls(...)`) of the method body, in source order, with the parameters
+    of the callee that are bound at the site (positional arguments already resolved to parameter names) -/
+def callsOf (cls method : String) : List (String × List String) :=
+  (sites.filter (fun s => s.cls == cls && s.method == method)).map (fun s => (s.callee, s.bind.map (·.1)))
+
+/-- the method makes exactly the listed calls in the listed order, and at each the SET of callee parameters that
+    receive an argument is exactly the listed one (spelling — positional or keyword, and the order of keywords — is
+    immaterial; every parameter not listed is left at the callee's default).  A new argument at a site, a dropped
+    one, a new or dropped call all make this false. -/
+def callsExactly (cls method : String) (want : List (String × List String)) : Bool :=
+  let have_ := callsOf cls method
+  have_.length == want.length && (have_.zip want).all (fun p => p.1.1 == p.2.1 && sameSet p.1.2 p.2.2)
+
 /-- the store happens before the call site (position inside the method) -/
 def storedBefore (cls method target callee : String) (idx : Nat := 0) : Bool :=
   match store cls method target, site cls method callee idx with
